@@ -1091,6 +1091,7 @@ func checkStringCharsets(c *Check, p *Program, dts []dptType) {
 		// encoder: a rune is written as byte(r) only below a limit, replaced otherwise
 		keep := math.Inf(1)
 		nKeep := 0
+		extraPred := ""
 		instrsOf(dt.Pack, func(in ssa.Instruction) {
 			st, ok := in.(*ssa.Store)
 			if !ok {
@@ -1108,8 +1109,24 @@ func checkStringCharsets(c *Check, p *Program, dts []dptType) {
 			if iv.hi < keep {
 				keep = iv.hi
 			}
+			// the keep branch must depend on nothing but comparisons of the character with constants:
+			// a further predicate (unicode.IsPrint, a table lookup) shrinks the kept set in a way an interval cannot describe
+			for _, f := range factsAt(st.Block()) {
+				for _, side := range []ssa.Value{f.X, f.Y} {
+					if call, ok := side.(*ssa.Call); ok && builtinName(call) == "" {
+						for _, a := range call.Common().Args {
+							if sameNumeric(a, cv.X) {
+								extraPred = "the character is also tested by " + call.Common().String()
+							}
+						}
+					}
+				}
+			}
 		})
 		pos := p.Pos(dt.Unpack.Pos())
+		if extraPred != "" {
+			c.Fail("C06.charset", name+" kept characters form a range", pos, extraPred+": the encoder replaces characters the decoder yields")
+		}
 		c.Decide(okDec && nApp >= 1 && nKeep >= 1 && float64(maxDec) <= keep && keep <= 255, "C06.charset", name+" decoded characters survive re-encoding", pos, fmt.Sprintf("decoder yields characters <= %d, encoder keeps characters <= %g", maxDec, keep), fmt.Sprintf("the decoder can yield the character %d but the encoder keeps only characters <= %g (others are replaced): re-encoding a decoded string changes it (decoder understood=%v, append sites=%d, keep sites=%d)", maxDec, keep, okDec, nApp, nKeep))
 	}
 	c.Floor("C06.charset", "fixed-length string types", n, 2)
